@@ -3,6 +3,8 @@
 
 use crate::rng::{fnv, Rng};
 use crate::val::{rand_value, st_bits, Fill, ALL_ST, INT_ST};
+#[allow(unused_imports)]
+use ciphercore_base::data_types::UINT32;
 use ciphercore_base::custom_ops::{CustomOperation, Not, Or};
 use ciphercore_base::data_types::{
     array_type, scalar_type, tuple_type, vector_type, ScalarType, Type, BIT, UINT64,
@@ -805,4 +807,260 @@ pub fn vt(n: u64, t: Type) -> Type {
 
 pub fn tt(v: Vec<Type>) -> Type {
     tuple_type(v)
+}
+
+// ------------------------------------------------------------------------------------------
+// Additional proposers for the "any primitive operation" alphabet (G_any / G_inl)
+// ------------------------------------------------------------------------------------------
+impl<'a> B<'a> {
+    pub fn p_truncate(&mut self) -> Option<Node> {
+        let a = self.pick_int_arr()?;
+        let w = st_bits(self.ty(&a).get_scalar_type()) as u64;
+        let scale: u128 = match self.rng.below(8) {
+            0 => 1,
+            1 => 2,
+            2 => 3,
+            3 => 10,
+            4 => 1u128 << self.rng.below(w - 1),
+            5 if self.flavor == Flavor::Any => 0,
+            6 => 1u128 << (w - 1),
+            _ => self.rng.range(1, 1000) as u128,
+        };
+        let r = self.g.truncate(a, scale);
+        self.accept(r, "Truncate")
+    }
+
+    pub fn p_random(&mut self) -> Option<Node> {
+        if self.rng.chance(1, 3) {
+            let n = self.rng.range(if self.flavor == Flavor::Any { 0 } else { 1 }, 6);
+            let r = self.g.random_permutation(n);
+            self.accept(r, "RandomPermutation")
+        } else {
+            let st = *self.rng.pick(&ALL_ST);
+            let t = rand_array_type(self.rng, st, 2, 3);
+            let r = self.g.random(t);
+            self.accept(r, "Random")
+        }
+    }
+
+    pub fn key_node(&mut self) -> Option<Node> {
+        let kt = array_type(vec![128], BIT);
+        let kt2 = kt.clone();
+        match self.rng.below(4) {
+            0 => {
+                let r = self.pick_where(|t| *t == kt2);
+                match r {
+                    Some(n) => Some(n),
+                    None => {
+                        let r = self.g.random(kt);
+                        self.accept(r, "Random")
+                    }
+                }
+            }
+            1 => self.constant(kt, Fill::Uniform),
+            _ => {
+                let r = self.pick_where(|t| *t == kt2);
+                match r {
+                    Some(n) => Some(n),
+                    None => {
+                        let r = self.g.random(kt);
+                        self.accept(r, "Random")
+                    }
+                }
+            }
+        }
+    }
+
+    pub fn p_prf(&mut self) -> Option<Node> {
+        let key = self.key_node()?;
+        let iv = self.rng.below(3);
+        if self.rng.chance(1, 4) {
+            let n = self.rng.range(1, 6);
+            let r = key.permutation_from_prf(iv, n);
+            self.accept(r, "PermutationFromPRF")
+        } else {
+            let st = *self.rng.pick(&ALL_ST);
+            let t = rand_array_type(self.rng, st, 2, 3);
+            let r = key.prf(iv, t);
+            self.accept(r, "PRF")
+        }
+    }
+
+    pub fn p_nop(&mut self) -> Option<Node> {
+        let a = self.rng.pick(&self.pool.clone()).clone();
+        let r = a.nop();
+        self.accept(r, "NOP")
+    }
+
+    pub fn p_gather(&mut self) -> Option<Node> {
+        let a = self.pick_where(|t| matches!(t, Type::Array(_, _)))?;
+        let s = shape_of(&self.ty(&a));
+        let slack = if self.flavor == Flavor::Any && self.rng.chance(1, 8) { 1 } else { 0 };
+        let axis = self.rng.below(s.len() as u64 + slack);
+        let d = *s.get(axis as usize).unwrap_or(&1);
+        let k = self.rng.range(1, d);
+        let mut all: Vec<u128> = (0..d as u128).collect();
+        self.rng.shuffle(&mut all);
+        let mut idx: Vec<u128> = all[..k as usize].to_vec();
+        if self.flavor == Flavor::Any && self.rng.chance(1, 6) {
+            idx[0] = d as u128 + self.rng.below(3) as u128; // invalid content: runtime error expected
+        }
+        let ist = *self.rng.pick(&[UINT64, ciphercore_base::data_types::UINT32, ciphercore_base::data_types::UINT16]);
+        let it = array_type(vec![k], ist);
+        let r = self.g.constant(it, crate::val::value_of_ints(&idx, ist));
+        let i = self.accept(r, "Constant")?;
+        let r = self.g.gather(a, i, axis);
+        self.accept(r, "Gather")
+    }
+
+    pub fn perm_node(&mut self, n: u64) -> Option<Node> {
+        let pt = array_type(vec![n], UINT64);
+        let pt2 = pt.clone();
+        match self.rng.below(3) {
+            0 => {
+                let r = self.pick_where(|t| *t == pt2);
+                if r.is_some() {
+                    return r;
+                }
+                let r = self.g.random_permutation(n);
+                self.accept(r, "RandomPermutation")
+            }
+            _ => {
+                let mut p: Vec<u128> = (0..n as u128).collect();
+                self.rng.shuffle(&mut p);
+                if self.flavor == Flavor::Any && self.rng.chance(1, 6) && n > 1 {
+                    p[0] = p[1]; // not a permutation: runtime error expected
+                }
+                let r = self.g.constant(pt, crate::val::value_of_ints(&p, UINT64));
+                self.accept(r, "Constant")
+            }
+        }
+    }
+
+    pub fn p_inverse_permutation(&mut self) -> Option<Node> {
+        let n = self.rng.range(1, 6);
+        let p = self.perm_node(n)?;
+        let r = self.g.inverse_permutation(p);
+        self.accept(r, "InversePermutation")
+    }
+
+    pub fn p_apply_permutation(&mut self) -> Option<Node> {
+        let a = self.pick_where(|t| matches!(t, Type::Array(_, _)))?;
+        let n = shape_of(&self.ty(&a))[0];
+        let p = self.perm_node(n)?;
+        let r = if self.rng.bool() {
+            self.g.apply_permutation(a, p)
+        } else {
+            self.g.apply_inverse_permutation(a, p)
+        };
+        self.accept(r, "ApplyPermutation")
+    }
+
+    pub fn p_sort(&mut self) -> Option<Node> {
+        let n = self.rng.range(1, 6);
+        let b = self.rng.range(1, 5);
+        let key = self.constant(array_type(vec![n, b], BIT), Fill::Uniform)?;
+        let mut cols = vec![("key".to_string(), key)];
+        for i in 0..self.rng.range(0, 2) {
+            let c = match self.pick_where(|t| matches!(t, Type::Array(s, _) if s[0] == n)) {
+                Some(c) => c,
+                None => {
+                    let st = *self.rng.pick(&ALL_ST);
+                    let m = self.rng.range(1, 3);
+                    self.constant(array_type(vec![n, m], st), Fill::Uniform)?
+                }
+            };
+            cols.push((format!("c{}", i), c));
+        }
+        let r = self.g.create_named_tuple(cols);
+        let nt = self.accept(r, "CreateNamedTuple")?;
+        let r = self.g.sort(nt, "key".to_string());
+        self.accept(r, "Sort")
+    }
+
+    pub fn p_segment_cumsum(&mut self) -> Option<Node> {
+        let a = self.pick_where(|t| matches!(t, Type::Array(_, st) if *st != BIT))?;
+        let ta = self.ty(&a);
+        let s = shape_of(&ta);
+        let st = ta.get_scalar_type();
+        let bin = self.constant(array_type(vec![s[0]], BIT), Fill::Uniform)?;
+        let ft = if s.len() == 1 { scalar_type(st) } else { array_type(s[1..].to_vec(), st) };
+        let first = self.constant(ft, Fill::Uniform)?;
+        let r = self.g.segment_cumsum(a, bin, first);
+        self.accept(r, "SegmentCumSum")
+    }
+
+    pub fn p_print_assert(&mut self) -> Option<Node> {
+        let a = self.rng.pick(&self.pool.clone()).clone();
+        if self.rng.bool() {
+            let r = self.g.print("dbg".to_string(), a);
+            self.accept(r, "Print")
+        } else {
+            let c = match self.pick_where(|t| *t == scalar_type(BIT)) {
+                Some(c) => c,
+                None => self.constant(scalar_type(BIT), Fill::Ones)?,
+            };
+            let r = self.g.assert("chk".to_string(), c, a);
+            self.accept(r, "Assert")
+        }
+    }
+
+    pub fn p_switching(&mut self) -> Option<Node> {
+        let n = self.rng.range(1, 6);
+        match self.rng.below(2) {
+            0 => {
+                // switching map: values in 0..n, any multiplicities
+                let k = self.rng.range(1, n);
+                let vals: Vec<u128> = (0..k).map(|_| self.rng.below(n) as u128).collect();
+                let r = self.g.constant(array_type(vec![k], UINT64), crate::val::value_of_ints(&vals, UINT64));
+                let m = self.accept(r, "Constant")?;
+                let r = self.g.decompose_switching_map(m, n);
+                self.accept(r, "DecomposeSwitchingMap")
+            }
+            _ => {
+                // cuckoo map: distinct indices with dummies (u64::MAX)
+                let mut vals: Vec<u128> = (0..n as u128).collect();
+                self.rng.shuffle(&mut vals);
+                for v in vals.iter_mut() {
+                    if self.rng.chance(1, 3) {
+                        *v = u64::MAX as u128;
+                    }
+                }
+                let r = self.g.constant(array_type(vec![n], UINT64), crate::val::value_of_ints(&vals, UINT64));
+                let m = self.accept(r, "Constant")?;
+                let r = self.g.cuckoo_to_permutation(m);
+                self.accept(r, "CuckooToPermutation")
+            }
+        }
+    }
+
+    /// one random step over all primitive operations
+    pub fn step_any(&mut self) -> Option<Node> {
+        match self.rng.below(16) {
+            0..=8 => self.step_mpc(),
+            9 => self.p_truncate(),
+            10 => self.p_random(),
+            11 => match self.rng.below(3) {
+                0 => self.p_prf(),
+                1 => self.p_nop(),
+                _ => self.p_print_assert(),
+            },
+            12 => self.p_gather(),
+            13 => {
+                if self.rng.bool() {
+                    self.p_inverse_permutation()
+                } else {
+                    self.p_apply_permutation()
+                }
+            }
+            14 => {
+                if self.rng.bool() {
+                    self.p_sort()
+                } else {
+                    self.p_segment_cumsum()
+                }
+            }
+            _ => self.p_switching(),
+        }
+    }
 }
